@@ -42,16 +42,17 @@ func runC11(c *eng.Ctx, thorough bool) {
 			// the entry audited is the request being dispatched
 			c.Clause("R5", "C11.1")
 			for _, au := range audits {
-				lr, in := au.call, au.in
-				if in == nil {
-					c.Undecided(f, "prov{LogInput.Request audited}", lr.Pos(), "the LogInput handed to the broker through a forwarding closure could not be traced to the call's arguments; the rule cannot be evaluated")
-					continue
-				}
-				for _, v := range eng.StructLitField(in, "Request") {
-					c.Prov(f, "LogInput.Request audited", lr, v, `^param:req$`)
-				}
-				if len(eng.StructLitField(in, "Request")) == 0 {
+				lr := au.call
+				vals, literal, traced := c11AuditVals(f, au, "Request")
+				switch {
+				case !traced:
+					c.Undecided(f, "prov{LogInput.Request audited}", lr.Pos(), "the Request put into the LogInput inside a closure / helper could not be traced back to this function's values; the rule cannot be evaluated")
+				case !literal || len(vals) == 0:
 					c.Violation(f, "prov{LogInput.Request audited}", lr.Pos(), "the audited LogInput has no Request", nil)
+				default:
+					for _, v := range vals {
+						c.Prov(f, "LogInput.Request audited", lr, v, `^param:req$`)
+					}
 				}
 			}
 		}
@@ -118,27 +119,32 @@ func runC11(c *eng.Ctx, thorough bool) {
 		// failure edge of LogResponse returns nil response
 		c.Clause("R4", "C11.2")
 		for _, au := range respAudits {
-			lr, in := au.call, au.in
+			lr := au.call
 			c.NilResultOnEdges(f, "LogResponse failed", eng.CallFailEdges(lr), 0, "response")
 			// the response being audited is the one returned (or its decoded form for unwrap)
-			if in == nil {
-				c.Clause("R5", "C11.2")
-				c.Undecided(f, "prov{LogInput.Response audited = response returned across the audit's success edge}", lr.Pos(), "the LogInput handed to the broker through a forwarding closure could not be traced to the call's arguments; the rule cannot be evaluated")
-				continue
-			}
-			for _, v := range eng.StructLitField(in, "Request") {
-				c.Clause("R5", "C11.2")
-				c.Prov(f, "LogInput.Request in response audit", lr, v, `^param:req$`)
+			if rq, _, tr := c11AuditVals(f, au, "Request"); tr {
+				for _, v := range rq {
+					c.Clause("R5", "C11.2")
+					c.Prov(f, "LogInput.Request in response audit", lr, v, `^param:req$`)
+				}
 			}
 			// the response audited is the response disclosed on the success edge (or, for unwrap, its decoded form)
 			c.Clause("R5", "C11.2")
 			site := "prov{LogInput.Response audited = response returned across the audit's success edge}"
-			auds := eng.StructLitField(in, "Response")
+			// values in terms of this function: phis and memory cells (named results of a function with a
+			// defer) read at the point of use, parameters of a closure / helper replaced by the arguments
+			auds, literal, traced := c11AuditVals(f, au, "Response")
+			if !traced {
+				c.Undecided(f, site, lr.Pos(), "the Response put into the LogInput inside a closure / helper could not be traced back to this function's values; the rule cannot be evaluated")
+				continue
+			}
+			if !literal {
+				auds = nil
+			}
 			aud := map[ssa.Value]bool{}
 			escaped := false
 			for _, v := range auds {
-				// named results of a function with a defer are memory cells: read them at the point of use
-				escaped = c11CellLeaves(v, aud) || escaped
+				aud[v] = true
 			}
 			ret := map[ssa.Value]bool{}
 			for _, r := range eng.ReturnsFrom(f, eng.CallOKEdges(lr), nil, nil) {
